@@ -59,6 +59,24 @@ Theorem C20_inserted_inert : forall s, skeleton (html_escape s) = "".
 Proof. exact escape_clean. Qed.
 Print Assumptions C20_inserted_inert.
 
+(* SKELETON INDEPENDENCE.  The markup skeleton of the page (the subsequence of markup-significant characters of the
+   whole output) is a function of the SHAPE of the start-up failure alone - parsed as a traceback or not, number of
+   monitored files - and not of any text: error text, last line, exception type and message, file names can be
+   anything at all (markup, template syntax, control characters) without adding, removing or altering a tag. *)
+Theorem C20_skeleton_independent : forall tb tb' mon mon' all all',
+  List.length mon = List.length mon' -> List.length all = List.length all' ->
+  skeleton (render_nodes (flaw_ctx tb mon all) FLAW_NODES) = skeleton (render_nodes (flaw_ctx tb' mon' all') FLAW_NODES).
+Proof.
+  intros tb tb' mon mon' all all' Hm Ha. apply page_skeleton. unfold same_shape, flaw_ctx. cbn. auto.
+Qed.
+Print Assumptions C20_skeleton_independent.
+
+(* the same for ANY template and any two contexts of one shape (incl. parsed tracebacks) *)
+Theorem C20_skeleton_any_template : forall c c' ns, same_shape c c' ->
+  skeleton (render_nodes c ns) = skeleton (render_nodes c' ns).
+Proof. exact page_skeleton. Qed.
+Print Assumptions C20_skeleton_any_template.
+
 Example C20_example :
   last_line ("Traceback (most recent call last):" ++ nl ++ "  File ""x.py"", line 2" ++ nl ++ "NameError: name 'p' is not defined" ++ nl)
   = "NameError: name 'p' is not defined" /\ last_line "" = "Unknown error" /\ last_line "<b>" = "<b>".
